@@ -91,6 +91,13 @@ def laws(ds, ref):
     f, g = fns.add10, fns.mul3
     for bs in (1, 2, 3, 4):
         yield 'batch-unbatch-identity', {'n': bs}, (lambda bs=bs: ds.batch(bs).unbatch()), (lambda: ds), {'iter', 'iter2'}
+        # with drop_last the round trip is the identity on the examples batch keeps: the same pipeline with a stage in
+        # between, and (for indexable datasets) the slice of the kept examples
+        yield 'batch-drop-last-unbatch', {'n': bs}, (lambda bs=bs: ds.batch(bs, drop_last=True).unbatch()), \
+            (lambda bs=bs: ds.batch(bs, drop_last=True).map(fns.ident).unbatch()), {'iter', 'iter2'}
+        if ref.indexable:
+            yield 'batch-drop-last-unbatch-slice', {'n': bs}, (lambda bs=bs: ds.batch(bs, drop_last=True).unbatch()), \
+                (lambda bs=bs: ds[:(n // bs) * bs]), {'iter', 'iter2'}
     yield 'map-map-composition', {}, (lambda: ds.map(f).map(g)), (lambda: ds.map(compose(g, f))), None
     for r in (1, 2, 3):
         yield 'tile-is-concatenate', {'r': r}, (lambda r=r: ds.tile(r)), \
